@@ -182,7 +182,7 @@ theorem km_per_min_resolves :
     (defsBaseOnly_of_check _ catalogue_meets_term_hypotheses.2)
     (baseNoConv_of_check _ catalogue_meets_term_hypotheses.1) _
     (by decide +kernel) [(.atom 8, 1), (.atom 21, -1)] 52
-    (by decide +kernel) (by decide +kernel) (by decide +kernel) (by simp [numVal])
+    (by decide +kernel) (by decide +kernel) (by simp [numVal])
     (by decide +kernel) ?_
   intro a
   rw [hexp]
